@@ -94,6 +94,62 @@ func (P *Prog) condAtom(c ssa.Value, at ssa.Instruction) (*Term, bool) {
 
 func isNilConst(t *Term) bool { return t.Op == "const" && t.Name == "nil" }
 
+// condAtoms returns every atom established by cond c having the truth value pos.
+// Besides the condition itself it expands short-circuit values materialised as a
+// Phi: `a && b` is phi(false,…,b) — if it is true, control came through b's block
+// (so every guard of that block holds) and b is true; `a || b` symmetrically for false.
+func (P *Prog) condAtoms(c ssa.Value, at ssa.Instruction, pos bool, depth int) []Atom {
+	flip := false
+	v := c
+	for {
+		if u, ok := v.(*ssa.UnOp); ok && u.Op == token.NOT {
+			flip = !flip
+			v = u.X
+			continue
+		}
+		break
+	}
+	want := pos != flip // required truth value of v
+	t, p := P.condAtom(c, at)
+	if !pos {
+		p = !p
+	}
+	var ifi *ssa.If
+	if x, ok := at.(*ssa.If); ok {
+		ifi = x
+	}
+	out := []Atom{{T: t, Pos: p, If: ifi}}
+	phi, ok := v.(*ssa.Phi)
+	if !ok || depth > 4 {
+		return out
+	}
+	// all constant edges must equal !want, exactly one non-constant edge
+	idx := -1
+	for i, e := range phi.Edges {
+		if k, isC := e.(*ssa.Const); isC && k.Value != nil {
+			if (k.Value.ExactString() == "true") == want {
+				return out
+			}
+			continue
+		}
+		if idx >= 0 {
+			return out
+		}
+		idx = i
+	}
+	if idx < 0 {
+		return out
+	}
+	pred := phi.Block().Preds[idx]
+	if len(pred.Instrs) > 0 {
+		for _, a := range P.LocalGuards(pred.Instrs[len(pred.Instrs)-1]) {
+			out = append(out, a)
+		}
+	}
+	out = append(out, P.condAtoms(phi.Edges[idx], phi, want, depth+1)...)
+	return out
+}
+
 // edgeFilter says whether CFG edge b -> b.Succs[i] may be used.
 type edgeFilter func(b *ssa.BasicBlock, i int) bool
 
@@ -153,15 +209,12 @@ func (P *Prog) guardsBetween(from, to *ssa.BasicBlock, at ssa.Instruction) []Ato
 				continue
 			}
 			if !reachBlock(from, to, cut) {
-				t, pos := P.condAtom(ifi.Cond, ifi)
-				if side == 1 {
-					pos = !pos
-				}
-				out = append(out, Atom{T: t, Pos: pos, If: ifi})
+				out = append(out, P.condAtoms(ifi.Cond, ifi, side == 0, 0)...)
 			}
 		}
 	}
 	// switch-style chains: a "default" arm is reached only through the false edges of all case tests; covered by the loop above.
+	out = dedupeAtoms(out)
 	sort.Slice(out, func(i, j int) bool { return out[i].Key() < out[j].Key() })
 	return out
 }
@@ -180,11 +233,12 @@ func (P *Prog) RequiresCut(from, target *ssa.BasicBlock, cutEdge func(a Atom) bo
 		if !ok || len(b.Succs) != 2 {
 			return true
 		}
-		t, pos := P.condAtom(ifi.Cond, ifi)
-		if i == 1 {
-			pos = !pos
+		for _, a := range P.condAtoms(ifi.Cond, ifi, i == 0, 0) {
+			if cutEdge(a) {
+				return false
+			}
 		}
-		return !cutEdge(Atom{T: t, Pos: pos, If: ifi})
+		return true
 	}
 	return !reachBlock(from, target, filter)
 }
